@@ -85,4 +85,30 @@ CHECKS = {
         assumptions=["after an impossible length prefix (0..3) or a premature end of stream nothing further is asserted (the position of the next frame is undefined)",
                      "the reference decoder (refwire.Decode) defines which bodies are decodable; it agrees with the library on millions of fuzzed inputs (C01 FuzzDecodeVsRef)"],
     ),
+    "C08": dict(
+        pkg="sessfs",
+        level="exploration",
+        groups=[G("^TestC08_Session$", 1500, 15000)],
+        rule="sequential histories of 1..40 (thorough 80) session operations (attach/walk/open/create/read/write/stat/wstat/clunk/remove) on p9p.SFileSys over an "
+             "instrumented mock file system; fids from a 5-value pool plus NOFID and a never-bound value; name lists incl. '..', missing, non-normal; ~8% of operations "
+             "have a file-system failure or a partial walk injected. After every step the result and (via the verif hook) the real fid table are compared with a "
+             "reference fid table written from the property text. Non-trivial = the history contains a walk onto a bound fid, an in-place walk, a partial walk, reuse of a "
+             "clunked fid, or read/write on a wrongly opened fid; distinct by hash of the history.",
+        require_classes=dict(quick=["walk_onto_bound", "inplace_walk", "partial_walk", "reuse_after_clunk", "io_wrong_mode", "attach_onto_bound", "second_open", "nofid", "fs_error_injected"], thorough=[]),
+        assumptions=["the mock file system follows the conventions of the repository's own file systems (clone on empty walk, error when the first element is missing, partial qids + unusable placeholder otherwise, successful create consumes the parent handle)",
+                     "where the property text is silent (walk/create on an already open fid; the end state of a create whose new directory cannot be opened) both outcomes are accepted",
+                     "FileSys methods never return (nil, nil)"],
+    ),
+    "C13": dict(
+        pkg="sessfs",
+        level="fault_enumeration",
+        groups=[G("^TestC13_Release$", 1500, 15000)],
+        rule="same state machine as C08 with heavy fault injection (25% of operations make the mock's attach/walk/open/opendir/create/read/write/stat/wstat/clunk/remove call fail, "
+             "or cut a walk short) and Session.Stop at a generated step (25%) or at the end. Oracle: per mock handle release counter and use-after-release flag; after every step no bound fid "
+             "points at a released handle; after Stop no fid is bound and every handle that was ever bound has exactly one release. Non-trivial = a failure was injected into an operation "
+             "on a bound fid.",
+        require_classes=dict(quick=["fault_on_bound_fid", "stop_midway", "handles_bound"], thorough=[]),
+        assumptions=["a successful FileSys-level Create consumes (releases) the parent handle, as ramfs does",
+                     "in the corner 'directory created but OpenDir fails' release accounting of the parent and the new entry is not asserted (the property text does not determine it); termination and the end state are"],
+    ),
 }
